@@ -557,3 +557,58 @@ mod test {
         }
     }
 }
+
+// Verification hooks (add-only, compiled only with `--cfg rngs_verif`).
+// Accessors and constructors only; no hook re-implements any logic.
+#[cfg(rngs_verif)]
+impl IsaacCore {
+    /// Verification hook: a core with all-zero memory and a = b = c = 0.
+    pub fn verif_zeroed() -> Self {
+        Self {
+            mem: [w(0); RAND_SIZE],
+            a: w(0),
+            b: w(0),
+            c: w(0),
+        }
+    }
+
+    /// Verification hook: read one memory word.
+    pub fn verif_mem(&self, i: usize) -> u32 {
+        self.mem[i].0
+    }
+
+    /// Verification hook: write one memory word.
+    pub fn verif_set_mem(&mut self, i: usize, v: u32) {
+        self.mem[i] = w(v);
+    }
+
+    /// Verification hook: read (a, b, c).
+    pub fn verif_abc(&self) -> (u32, u32, u32) {
+        (self.a.0, self.b.0, self.c.0)
+    }
+
+    /// Verification hook: set (a, b, c).
+    pub fn verif_set_abc(&mut self, a: u32, b: u32, c: u32) {
+        self.a = w(a);
+        self.b = w(b);
+        self.c = w(c);
+    }
+}
+
+#[cfg(rngs_verif)]
+impl IsaacRng {
+    /// Verification hook: wrap a core in a fresh (empty-buffer) generator.
+    pub fn verif_from_core(core: IsaacCore) -> Self {
+        IsaacRng(BlockRng::new(core))
+    }
+
+    /// Verification hook: read access to the wrapped block generator.
+    pub fn verif_inner(&self) -> &BlockRng<IsaacCore> {
+        &self.0
+    }
+
+    /// Verification hook: write access to the wrapped block generator.
+    pub fn verif_inner_mut(&mut self) -> &mut BlockRng<IsaacCore> {
+        &mut self.0
+    }
+}
